@@ -40,10 +40,11 @@ def isSome : Val → Bool
   | .some _ => true
   | _ => false
 
-/-- the Go value of an optional non-pointer field is the field itself -/
+/-- the Go value of an optional non-pointer field is the field itself; a row of a null run holds
+the zero value of the Go type (zero scalar, nil map), abstracted as `Val.none` -/
 def unopt : Val → Val
   | .some w => w
-  | v => v
+  | _ => .none
 
 /-- `rows.Slice(i, j)` -/
 def sliceRows (vs : List Val) (i j : Nat) : List Val := (vs.drop i).take (j - i)
@@ -108,6 +109,33 @@ def elemsS : Val → List Val
 is `struct [list [struct [e₁], …]]` -/
 def elemsL (v : Val) : List Val := (elemsS (hd (fieldsOf v))).map fun w => hd (fieldsOf w)
 
+/-- entries of a Go map on `group (MAP) { repeated group key_value { key; value } }`: the value is
+`struct [list [struct [k₁, v₁], …]]`, the entries in the order the typed path emits them
+(`makeMapFunc` sorts the keys, `column_buffer_reflect.go:186-210`) -/
+def elemsM (v : Val) : List Val := elemsS (hd (fieldsOf v))
+
+/-- keys of a list of map entries (`keys` of `makeMap(m).entries()`) -/
+def keysOf (es : List Val) : List Val := (es.map fieldsOf).map hd
+/-- values of a list of map entries -/
+def valsOf (es : List Val) : List Val := ((es.map fieldsOf).map List.tail).map hd
+
+/-- MIRROR `writeRowsFuncOfMap`, MAP logical type (`column_buffer_write.go:841-875`): no rows = the
+key writer and the value writer on the empty array; per row the empty (or nil) map hands both the
+empty array at the row's levels with `repetitionDepth+1`, else the first entry goes down at
+`definitionLevel+1` and the remaining entries at `repetitionLevel = repetitionDepth`. `mk`/`mv` are
+the numbers of leaf columns below key and value (keys and values write disjoint columns, so the
+interleaving of the four calls does not show in the per-column effect). -/
+def wrMap (mk mv : Nat) (keyW valW : WriteRows) : WriteRows := fun r k d vs =>
+  if vs.isEmpty then keyW r k d [] ++ valW r k d []
+  else
+    joinSegs (mk + mv) (vs.map fun v =>
+      match elemsM v with
+      | [] => keyW r (k + 1) d [] ++ valW r (k + 1) d []
+      | e :: es =>
+        zipApp (keyW r (k + 1) (d + 1) (keysOf [e]) ++ valW r (k + 1) (d + 1) (valsOf [e]))
+          (if es.isEmpty then List.replicate (mk + mv) []
+           else keyW (k + 1) (k + 1) (d + 1) (keysOf es) ++ valW (k + 1) (k + 1) (d + 1) (valsOf es)))
+
 /- Go types with a typed write path, by wrapper -/
 mutual
 inductive TNode where
@@ -125,6 +153,11 @@ inductive TNode where
   | list (n : TNode)
   /-- `[]T` with the `optional` and `list` tags: slice branch of `writeRowsFuncOfOptional` over `list` -/
   | optList (n : TNode)
+  /-- `map[K]V` on a MAP node: `writeRowsFuncOfMap` -/
+  | map (kn vn : TNode)
+  /-- `map[K]V` with the `optional` tag: bitmap branch of `writeRowsFuncOfOptional` (pointer null
+  index: the nil map is null, the empty non-nil map is present) over `writeRowsFuncOfMap` -/
+  | optMap (kn vn : TNode)
 inductive TFields where
   | nil
   | cons (n : TNode) (fs : TFields)
@@ -132,6 +165,12 @@ end
 
 /-- schema node of the element wrapped as a LIST: `group (LIST) { repeated group list { element } }` -/
 def listNode (e : Node) : Node := .group (.cons (.rpt (.group (.cons e .nil))) .nil)
+
+/-- `group key_value { key; value }` -/
+def pairNode (k v : Node) : Node := .group (.cons k (.cons v .nil))
+
+/-- schema node of a MAP: `group (MAP) { repeated group key_value { key; value } }` -/
+def mapNode (k v : Node) : Node := .group (.cons (.rpt (pairNode k v)) .nil)
 
 /- the schema `SchemaOf` derives for the Go type -/
 mutual
@@ -143,6 +182,8 @@ def erase : TNode → Node
   | .slice n => .rpt (erase n)
   | .list n => listNode (erase n)
   | .optList n => .opt (listNode (erase n))
+  | .map kn vn => mapNode (erase kn) (erase vn)
+  | .optMap kn vn => .opt (mapNode (erase kn) (erase vn))
 def eraseF : TFields → Fields
   | .nil => .nil
   | .cons n fs => .cons (erase n) (eraseF fs)
@@ -162,6 +203,11 @@ def tyN : TNode → (dm : Nat) → WriteRows
   | .list n, dm => wrSlice (leavesN (erase n)) elemsL (tyN n (dm + 1))
   | .optList n, dm =>
     wrOptionalSlice (leavesN (erase n)) (wrSlice (leavesN (erase n)) elemsL (tyN n (dm + 2)))
+  | .map kn vn, dm =>
+    wrMap (leavesN (erase kn)) (leavesN (erase vn)) (tyN kn (dm + 1)) (tyN vn (dm + 1))
+  | .optMap kn vn, dm =>
+    wrOptional (leavesN (erase kn) + leavesN (erase vn))
+      (wrMap (leavesN (erase kn)) (leavesN (erase vn)) (tyN kn (dm + 2)) (tyN vn (dm + 2)))
 def tyF : TFields → (dm : Nat) → (rep depth dfn : Nat) → List (List Val) → Cols
   | .nil, _ => fun _ _ _ _ => []
   | .cons n fs, dm => fun r k d vss =>
@@ -638,6 +684,216 @@ theorem map_ne_nil {α β : Type} {f : α → β} {l : List α} (h : l ≠ []) :
   | nil => exact absurd rfl h
   | cons _ _ => simp
 
+/-! ## maps, and the bitmap branch of the optional wrapper over any sound writer -/
+
+theorem zipApp_assoc : ∀ (A B C : Cols), zipApp (zipApp A B) C = zipApp A (zipApp B C)
+  | [], _, _ => by simp [zipApp]
+  | _ :: _, [], _ => by simp [zipApp]
+  | _ :: _, _ :: _, [] => by simp [zipApp]
+  | a :: as, b :: bs, c :: cs => by simp [zipApp, zipApp_assoc as bs cs]
+
+theorem replicate_zipApp : ∀ (B : Cols), zipApp (List.replicate B.length []) B = B
+  | [] => rfl
+  | b :: bs => by simp [List.replicate_succ, zipApp, replicate_zipApp bs]
+
+theorem joinSegs_append {m : Nat} : ∀ (xs ys : List Cols), (∀ s ∈ ys, s.length = m) →
+    joinSegs m (xs ++ ys) = zipApp (joinSegs m xs) (joinSegs m ys)
+  | [], ys, hy => by
+    have hl : (joinSegs m ys).length = m := joinSegs_length hy
+    have h := replicate_zipApp (joinSegs m ys)
+    rw [hl] at h
+    simpa [joinSegs] using h.symm
+  | x :: xs, ys, hy => by
+    simp only [List.cons_append, joinSegs_cons]
+    rw [joinSegs_append xs ys hy, zipApp_assoc]
+
+/-- the writer of `group key_value { key; value }` over the entries of a map: keys to the key
+writer, values to the value writer -/
+def wrPair (fk fv : Nat → WriteRows) : Nat → WriteRows := fun dm r k d vs =>
+  fk dm r k d (keysOf vs) ++ fv dm r k d (valsOf vs)
+
+theorem shredN_pair (K V : Node) (r k d : Nat) (v : Val) :
+    shredN (pairNode K V) r k d v =
+      shredN K r k d (hd (fieldsOf v)) ++ shredN V r k d (hd (fieldsOf v).tail) := by
+  unfold pairNode
+  rw [shredN_group, shredF_cons, shredF_cons]
+  simp [shredF]
+
+theorem leavesN_pairNode (K V : Node) : leavesN (pairNode K V) = leavesN K + leavesN V := by
+  simp [pairNode, leavesN, leavesF]
+
+theorem leavesN_mapNode (K V : Node) : leavesN (mapNode K V) = leavesN K + leavesN V := by
+  simp [mapNode, pairNode, leavesN, leavesF]
+
+theorem absentN_mapNode (K V : Node) (r d : Nat) :
+    absentN (mapNode K V) r d = absentN K r d ++ absentN V r d := by
+  simp [mapNode, pairNode, absentN, absentF]
+
+theorem pair_sound {K V : Node} {fk fv : Nat → WriteRows} (hk : Sound K fk) (hv : Sound V fv) :
+    Sound (pairNode K V) (wrPair fk fv) := by
+  intro dm r k
+  refine ⟨?_, ?_⟩
+  · intro vs hvs
+    have hkn : keysOf vs ≠ [] := map_ne_nil (map_ne_nil hvs)
+    have hvn : valsOf vs ≠ [] := map_ne_nil (map_ne_nil (map_ne_nil hvs))
+    simp only [wrPair]
+    rw [(hk dm r k).1 _ hkn, (hv dm r k).1 _ hvn, leavesN_pairNode]
+    have hrhs : vs.map (shredN (pairNode K V) r k dm) =
+        vs.map (fun v => (fun v => shredN K r k dm (hd (fieldsOf v))) v ++
+          (fun v => shredN V r k dm (hd (fieldsOf v).tail)) v) :=
+      map_congr_mem (fun v _ => shredN_pair K V r k dm v)
+    rw [hrhs, joinSegs_append_cols _ _ vs (fun v _ => shredN_length K r k dm _)
+      (fun v _ => shredN_length V r k dm _)]
+    simp [keysOf, valsOf, List.map_map, Function.comp_def]
+  · intro d hd'
+    simp only [wrPair, keysOf, valsOf, List.map_nil]
+    rw [(hk dm r k).2 d hd', (hv dm r k).2 d hd']
+    simp [pairNode, absentN, absentF]
+
+theorem shredN_mapNode (K V : Node) (r k d : Nat) (v : Val) :
+    shredN (mapNode K V) r k d v =
+      match elemsM v with
+      | [] => absentN (pairNode K V) r d
+      | w :: ws => zipApp (shredN (pairNode K V) r (k + 1) (d + 1) w)
+          (joinSegs (leavesN (pairNode K V)) (ws.map (shredN (pairNode K V) (k + 1) (k + 1) (d + 1)))) := by
+  unfold mapNode elemsM
+  rw [shredN_group1, shredN_rpt]
+
+theorem wrMap_eq_wrSlice (mk mv : Nat) (keyW valW : WriteRows) (r k d : Nat) (vs : List Val) :
+    wrMap mk mv keyW valW r k d vs =
+      wrSlice (mk + mv) elemsM (fun r k d xs => keyW r k d (keysOf xs) ++ valW r k d (valsOf xs)) r k d vs := by
+  simp only [wrMap, wrSlice, keysOf, valsOf, List.map_nil]
+
+theorem wrMap_sound {K V : Node} {fk fv : Nat → WriteRows} (hk : Sound K fk) (hv : Sound V fv) :
+    Sound (mapNode K V) (fun dm => wrMap (leavesN K) (leavesN V) (fk (dm + 1)) (fv (dm + 1))) := by
+  intro dm r k
+  refine ⟨?_, ?_⟩
+  · intro vs hvs
+    have h := wrSlice_rows (pair_sound hk hv) elemsM (fun r k d v => shredN (mapNode K V) r k d v)
+      (fun r k d v => shredN_mapNode K V r k d v) dm r k vs hvs
+    rw [leavesN_pairNode] at h
+    show wrMap (leavesN K) (leavesN V) (fk (dm + 1)) (fv (dm + 1)) r k dm vs = _
+    rw [leavesN_mapNode, wrMap_eq_wrSlice]
+    exact h
+  · intro d hd'
+    show wrMap (leavesN K) (leavesN V) (fk (dm + 1)) (fv (dm + 1)) r k d [] = _
+    simp only [wrMap, List.isEmpty_nil, if_true]
+    rw [(hk (dm + 1) r k).2 d (by omega), (hv (dm + 1) r k).2 d (by omega), absentN_mapNode]
+
+theorem chain_write_gen {n : Node} {f : Nat → WriteRows} (h : Sound n f)
+    (hz : ∀ dm r k (vs : List Val), vs ≠ [] → (∀ v ∈ vs, isSome v = false) →
+      f (dm + 1) r k dm (vs.map unopt) = joinSegs (leavesN n) (vs.map fun _ => absentN n r dm))
+    (vs : List Val) (ws : List (BitVec 64)) (r k dm : Nat)
+    (hbits : ∀ p v, vs[p]? = some v → bitAt ws p = isSome v) :
+    ∀ (runs : List Run) (s e : Nat), Chain ws s e runs → e ≤ vs.length →
+      joinSegs (leavesN n) (runs.map fun run =>
+        f (dm + 1) r k (if run.isNull then dm else dm + 1) ((sliceRows vs run.i run.j).map unopt)) =
+      joinSegs (leavesN n) ((sliceRows vs s e).map (shredN (.opt n) r k dm))
+  | [], s, e, hc, _ => by
+    simp only [Chain] at hc
+    subst hc
+    simp [joinSegs, sliceRows]
+  | run :: rs, s, e, hc, he => by
+    have hle := chain_le hc
+    simp only [Chain] at hc
+    rcases hc with ⟨hs, hlt, hb, hrest⟩
+    have hle2 := chain_le hrest
+    have ih := chain_write_gen h hz vs ws r k dm hbits rs run.j e hrest he
+    simp only [List.map_cons, joinSegs_cons]
+    rw [ih]
+    have hlen : (sliceRows vs run.i run.j).length = run.j - run.i := sliceRows_length vs (by omega)
+    have hne : sliceRows vs run.i run.j ≠ [] := by
+      intro h0
+      rw [h0] at hlen
+      simp at hlen
+      omega
+    have hrun : f (dm + 1) r k (if run.isNull then dm else dm + 1) ((sliceRows vs run.i run.j).map unopt) =
+        joinSegs (leavesN n) ((sliceRows vs run.i run.j).map (shredN (.opt n) r k dm)) := by
+      cases hn : run.isNull with
+      | true =>
+        have hall : ∀ v ∈ sliceRows vs run.i run.j, isSome v = false := by
+          intro v hv
+          rcases mem_sliceRows hv with ⟨p, hp1, hp2, hp3⟩
+          have hbit := hb p hp1 hp2
+          rw [hbits p v hp3, hn] at hbit
+          simpa using hbit
+        simp only [if_true]
+        rw [hz dm r k _ hne hall]
+        congr 1
+        apply map_congr_mem
+        intro v hv
+        have := hall v hv
+        rw [shredN_opt]
+        cases v <;> simp [isSome] at this <;> rfl
+      | false =>
+        have hall : ∀ v ∈ sliceRows vs run.i run.j, isSome v = true := by
+          intro v hv
+          rcases mem_sliceRows hv with ⟨p, hp1, hp2, hp3⟩
+          have hbit := hb p hp1 hp2
+          rw [hbits p v hp3, hn] at hbit
+          simpa using hbit
+        simp only [Bool.false_eq_true, if_false]
+        rw [(h (dm + 1) r k).1 _ (map_ne_nil hne), List.map_map]
+        congr 1
+        apply map_congr_mem
+        intro v hv
+        have := hall v hv
+        rw [shredN_opt]
+        cases v <;> simp [isSome] at this
+        simp [unopt]
+    have hys : ∀ s' ∈ (sliceRows vs run.j e).map (shredN (.opt n) r k dm), s'.length = leavesN n := by
+      intro s' hs'
+      rcases List.mem_map.mp hs' with ⟨v, _, rfl⟩
+      rw [shredN_length]
+      simp [leavesN]
+    rw [hrun, ← hs, ← joinSegs_append _ _ hys, ← List.map_append, sliceRows_append vs (by omega) hle2]
+
+/-- The bitmap branch of `writeRowsFuncOfOptional` over any sound writer whose null runs (rows
+holding the zero value, at the parent's definition level) write the absent node. -/
+theorem wrOptional_sound {n : Node} {f : Nat → WriteRows} (h : Sound n f)
+    (hz : ∀ dm r k (vs : List Val), vs ≠ [] → (∀ v ∈ vs, isSome v = false) →
+      f (dm + 1) r k dm (vs.map unopt) = joinSegs (leavesN n) (vs.map fun _ => absentN n r dm)) :
+    Sound (.opt n) (fun dm => wrOptional (leavesN n) (f (dm + 1))) := by
+  intro dm r k
+  refine ⟨?_, ?_⟩
+  · intro vs hvs
+    have hidx := nullIndex_spec isSome vs
+    rcases scan_spec (nullIndex isSome vs) vs.length hidx.2.1 vs.length 0 (Nat.zero_le _) (by omega)
+      with ⟨runs, hruns, hchain, _⟩
+    have hbits : ∀ p v, vs[p]? = some v → bitAt (nullIndex isSome vs) p = isSome v := by
+      intro p v hp
+      rw [hidx.2.2 p, hp]; rfl
+    have hw := chain_write_gen h hz vs (nullIndex isSome vs) r k dm hbits runs 0 vs.length hchain (Nat.le_refl _)
+    simp only [wrOptional, isEmpty_false_of_ne hvs, Bool.false_eq_true, if_false, nullRuns, hruns]
+    rw [hw]
+    simp [sliceRows, leavesN]
+  · intro d hd'
+    simp only [wrOptional, List.isEmpty_nil, if_true, absentN]
+    exact (h (dm + 1) r k).2 d (by omega)
+
+theorem wrMap_null_runs {K V : Node} {fk fv : Nat → WriteRows} (hk : Sound K fk) (hv : Sound V fv)
+    (dm r k : Nat) (vs : List Val) (hvs : vs ≠ []) (hall : ∀ v ∈ vs, isSome v = false) :
+    wrMap (leavesN K) (leavesN V) (fk (dm + 1 + 1)) (fv (dm + 1 + 1)) r k dm (vs.map unopt) =
+      joinSegs (leavesN (mapNode K V)) (vs.map fun _ => absentN (mapNode K V) r dm) := by
+  simp only [wrMap, isEmpty_false_of_ne (map_ne_nil hvs), Bool.false_eq_true, if_false, List.map_map,
+    leavesN_mapNode]
+  congr 1
+  apply map_congr_mem
+  intro v hv'
+  have := hall v hv'
+  have hu : unopt v = .none := by cases v <;> simp [isSome] at this <;> rfl
+  simp only [Function.comp, hu, elemsM, fieldsOf, hd, elemsS]
+  rw [(hk (dm + 2) r (k + 1)).2 dm (by omega), (hv (dm + 2) r (k + 1)).2 dm (by omega), absentN_mapNode]
+
+theorem wrOptMap_sound {K V : Node} {fk fv : Nat → WriteRows} (hk : Sound K fk) (hv : Sound V fv) :
+    Sound (.opt (mapNode K V)) (fun dm => wrOptional (leavesN K + leavesN V)
+      (wrMap (leavesN K) (leavesN V) (fk (dm + 2)) (fv (dm + 2)))) := by
+  have h := wrOptional_sound (wrMap_sound hk hv) (fun dm r k vs hvs hall => wrMap_null_runs hk hv dm r k vs hvs hall)
+  intro dm r k
+  have h' := h dm r k
+  rw [leavesN_mapNode] at h'
+  exact h'
+
 mutual
 theorem tyN_sound (n : TNode) : Sound (erase n) (tyN n) := by
   cases n with
@@ -678,6 +934,14 @@ theorem tyN_sound (n : TNode) : Sound (erase n) (tyN n) := by
   | optList n =>
     intro dm r k
     have h := wrOptList_sound (tyN_sound n) dm r k
+    simpa only [tyN, erase] using h
+  | map kn vn =>
+    intro dm r k
+    have h := wrMap_sound (tyN_sound kn) (tyN_sound vn) dm r k
+    simpa only [tyN, erase] using h
+  | optMap kn vn =>
+    intro dm r k
+    have h := wrOptMap_sound (tyN_sound kn) (tyN_sound vn) dm r k
     simpa only [tyN, erase] using h
 theorem tyF_sound (fs : TFields) : SoundF (eraseF fs) (tyF fs) := by
   cases fs with
